@@ -11,15 +11,22 @@ EXTENDS EditScript
 Lt(rev, a, b) == IF rev THEN a > b ELSE a < b          \* cmp(a, b) < 0
 Follows(strict, rev, a, b) == IF strict THEN Lt(rev, a, b) ELSE ~Lt(rev, b, a)   \* b may come after a
 
+\* best[j] = length of a longest chain ending at position j:
+\*   best[i] = 1 + max({0} \cup {best[j] : j < i, vs[i] may follow vs[j]})
+\* (the maxima are taken by linear scans: CHOOSE-with-forall is quadratic in TLC and the
+\*  thorough tier validates tens of thousands of inputs of 100+ elements)
+RECURSIVE MaxPrev(_, _, _, _, _, _, _)
+MaxPrev(vs, strict, rev, best, i, j, acc) ==
+  IF j >= i THEN acc
+  ELSE MaxPrev(vs, strict, rev, best, i, j + 1,
+               IF best[j] > acc /\ Follows(strict, rev, vs[j], vs[i]) THEN best[j] ELSE acc)
 RECURSIVE BestGo(_, _, _, _, _)
-BestGo(vs, strict, rev, i, best) ==     \* best[j] = longest chain ending at j, for j < i
+BestGo(vs, strict, rev, i, best) ==     \* best[j] for j < i
   IF i > Len(vs) THEN best
-  ELSE LET prevs == {best[j] : j \in {k \in 1..(i - 1) : Follows(strict, rev, vs[k], vs[i])}}
-           b == 1 + (IF prevs = {} THEN 0 ELSE CHOOSE x \in prevs : \A y \in prevs : y <= x)
-       IN  BestGo(vs, strict, rev, i + 1, Append(best, b))
-OptLen(vs, strict, rev) ==
-  LET best == BestGo(vs, strict, rev, 1, <<>>)
-  IN  IF vs = <<>> THEN 0 ELSE CHOOSE x \in {best[i] : i \in DOMAIN best} : \A i \in DOMAIN best : best[i] <= x
+  ELSE BestGo(vs, strict, rev, i + 1, Append(best, 1 + MaxPrev(vs, strict, rev, best, i, 1, 0)))
+RECURSIVE SeqMax(_, _, _)
+SeqMax(q, i, acc) == IF i > Len(q) THEN acc ELSE SeqMax(q, i + 1, IF q[i] > acc THEN q[i] ELSE acc)
+OptLen(vs, strict, rev) == SeqMax(BestGo(vs, strict, rev, 1, <<>>), 1, 0)
 
 Chain(out, strict, rev) == \A i \in 1..(Len(out) - 1) : Follows(strict, rev, out[i], out[i + 1])
 SubseqOK(out, vs, strict, rev) ==
